@@ -10,8 +10,9 @@
 (* replay, whose expectations TLC derived from the small abstract value    *)
 (* and which are length-independent (size lemmas of Deb822Value).          *)
 (* A trace is [objs, deep, events]: objs = the LIVE objects, each          *)
-(* [cls |-> "Deb822" | "Dsc" | "Changes", para |-> paragraph]; a paragraph *)
-(* is a sequence of [k, v] (code point sequences).  An event is            *)
+(* [cls |-> "Deb822" | "Dsc" | "Changes" | "BuildInfo" | "Release", para   *)
+(* |-> paragraph]; a paragraph is a sequence of [k, v] (code point         *)
+(* sequences).  An event is                                                *)
 (*   [obj, cls, key, v, acc, res, items, rb]:                              *)
 (*   obj    index of the live object assigned to; 0 = a throw-away object  *)
 (*          of class cls receiving v under a MULTIVALUED key (Files ...),  *)
@@ -59,12 +60,24 @@ VARIABLES tid, l, ps            \* ps[o]: paragraph of live object o
 
 Tr == Traces[tid]
 
-\* field names that the class does not validate (lower case): outside the domain of C08
-MultiNames == {<<102, 105, 108, 101, 115>>,
-               <<99, 104, 101, 99, 107, 115, 117, 109, 115, 45, 115, 104, 97, 49>>,
-               <<99, 104, 101, 99, 107, 115, 117, 109, 115, 45, 115, 104, 97, 50, 53, 54>>,
-               <<99, 104, 101, 99, 107, 115, 117, 109, 115, 45, 115, 104, 97, 53, 49, 50>>}
-IsMultiKeyC(cls, k) == cls # "Deb822" /\ \E m \in MultiNames : SameName(k, m)
+\* field names that a class does not validate (its _multivalued_fields, lower case): assignments
+\* to them are outside the domain of C08.  The SAME name is an ordinary, validated field in the
+\* other classes (Files in Deb822 / Release / BuildInfo, Checksums-Md5 in Dsc ...).
+N_checksums_md5 == <<99, 104, 101, 99, 107, 115, 117, 109, 115, 45, 109, 100, 53>>
+N_checksums_sha1 == <<99, 104, 101, 99, 107, 115, 117, 109, 115, 45, 115, 104, 97, 49>>
+N_checksums_sha256 == <<99, 104, 101, 99, 107, 115, 117, 109, 115, 45, 115, 104, 97, 50, 53, 54>>
+N_checksums_sha512 == <<99, 104, 101, 99, 107, 115, 117, 109, 115, 45, 115, 104, 97, 53, 49, 50>>
+N_files == <<102, 105, 108, 101, 115>>
+N_md5sum == <<109, 100, 53, 115, 117, 109>>
+N_sha1 == <<115, 104, 97, 49>>
+N_sha256 == <<115, 104, 97, 50, 53, 54>>
+N_sha512 == <<115, 104, 97, 53, 49, 50>>
+MultiNames(cls) == CASE cls = "Deb822" -> {}
+  [] cls = "Dsc" -> {N_files, N_checksums_sha1, N_checksums_sha256, N_checksums_sha512}
+  [] cls = "Changes" -> {N_files, N_checksums_sha1, N_checksums_sha256, N_checksums_sha512}
+  [] cls = "BuildInfo" -> {N_checksums_md5, N_checksums_sha1, N_checksums_sha256, N_checksums_sha512}
+  [] cls = "Release" -> {N_md5sum, N_sha1, N_sha256, N_sha512}
+IsMultiKeyC(cls, k) == \E m \in MultiNames(cls) : SameName(k, m)
 
 TInit == /\ tid \in 1..Len(Traces)
          /\ l = 1
